@@ -265,3 +265,29 @@ def with_watchdog(fn, seconds=5):
     finally:
         signal.setitimer(signal.ITIMER_REAL, 0)
         signal.signal(signal.SIGALRM, old)
+
+
+# --------------------------------------------------------------------------- exception labels
+
+def exc_label(exc):
+    """Name under which an exception is recorded.  A class of the library (or anybody else's) is recorded with the
+    built-in exception classes it derives from - 'CardinalityError<ValueError>' - so that a statement that asks for
+    ValueError is satisfied by every sub-class of it (`is_a`), as `except ValueError` would be."""
+    cls = exc if isinstance(exc, type) else type(exc)
+    if cls.__module__ == "builtins":
+        return cls.__name__
+    bases = [c.__name__ for c in cls.__mro__[1:]
+             if c.__module__ == "builtins" and c.__name__ not in ("Exception", "BaseException", "object")]
+    return "%s<%s>" % (cls.__name__, ",".join(bases)) if bases else cls.__name__
+
+
+def is_a(label, base):
+    """label (from exc_label) denotes `base` or a sub-class of it"""
+    if not isinstance(label, str):
+        return False
+    if label == base:
+        return True
+    if label.endswith(">") and "<" in label:
+        name, _, rest = label[:-1].partition("<")
+        return name == base or base in rest.split(",")
+    return False
